@@ -134,9 +134,9 @@ fn classify(payload: Box<dyn Any + Send>) -> Ended {
 /// Run code under test; a panic or typed unwind is data, not failure.
 pub fn guarded<R>(f: impl FnOnce() -> R) -> (Option<R>, Ended) {
     LAST_PANIC.with(|p| *p.borrow_mut() = None);
-    IN_GUARD.with(|g| *g.borrow_mut() = true);
+    let outer = IN_GUARD.with(|g| g.replace(true));
     let r = catch_unwind(AssertUnwindSafe(f));
-    IN_GUARD.with(|g| *g.borrow_mut() = false);
+    IN_GUARD.with(|g| *g.borrow_mut() = outer);
     match r {
         Ok(r) => (Some(r), Ended::Returned),
         Err(payload) => (None, classify(payload)),
